@@ -23,7 +23,7 @@ def gen_prog(rng):
         preds.append(sorted(members))
         w.add_pred(members)
     cls_ids = [0, 2, 3] + w.user_ids()
-    npos = rng.choice([1, 1, 2])
+    npos = rng.choice([1, 1, 2, 2])
     defs = []
     utab = {}
     ident = 1
@@ -45,6 +45,15 @@ def gen_prog(rng):
                 pos.append([0, rng.choice(cls_ids)])
         defs.append({"id": i, "pos": pos, "npos_req": npos, "kw": [], "prio": rng.choice([0, 0, 1]),
                      "body": rng.choice(["ret", "ret", "next", "rec", "nexto"])})
+    if npos == 2 and rng.random() < 0.6:
+        # a value-dependent parameter next to a class-predicate parameter in one method: the per-rank dispatcher generated
+        # for that method is what the cache holds, and it runs on every call
+        fid = 10 + len(utab)
+        utab[str(fid)] = []
+        pair = [[9, fid, [0, rng.choice(cls_ids)]], [7, ident, rng.randrange(npreds)]]
+        ident += 1
+        rng.shuffle(pair)
+        defs[0] = dict(defs[0], pos=pair)
     inst = [c for c in cls_ids if w.instantiable(c)]
     calls = [{"pos": [rng.choice(inst) for _ in range(npos)], "kw": {}} for _ in range(8)]
     seq = [rng.randrange(len(calls)) for _ in range(rng.randint(10, 30))]
